@@ -120,3 +120,33 @@ Example C15_void_source_example :
   forallb (wf_supported true) t_void_source = true /\
   mout t_void_source c_void = Some (B "prefalse"%string, None) /\ rout t_void_source c_void = (B "prefalse"%string, SNone).
 Proof. exact void_source_assigns_nothing. Qed.
+
+(* ---- counter steps on any integer, in the reference semantics (Proofs/SpecFacts.v) ---- *)
+From DT Require Import Proofs.SpecFacts.
+
+Theorem C15_counter_init : forall flits rlookup budget rinc var cop arg e,
+  ref_eval flits rlookup budget rinc (ACounter var true cop arg) e = ([], env_set var (VInt arg) true e, SNone).
+Proof. exact counter_init. Qed.
+Print Assumptions C15_counter_init.
+
+(* whatever produced the integer n (a counter tag, a setter, a loop counter ...) *)
+Theorem C15_counter_step : forall flits rlookup budget rinc var cop arg e v n,
+  env_get e var = Some v -> conv_int [] v = Some n ->
+  ref_eval flits rlookup budget rinc (ACounter var false cop arg) e =
+  ([], env_set var (VInt (match cop with OpInc => n + arg | _ => n - arg end)) true e, SNone).
+Proof. exact counter_step. Qed.
+Print Assumptions C15_counter_step.
+
+(* and the name reads back what was assigned *)
+Theorem C15_env_set_reads_back : forall k v st e, env_find k (ev (env_set k v st e)) = Some (mkEntry v st).
+Proof. exact env_find_env_set. Qed.
+Print Assumptions C15_env_set_reads_back.
+
+Example C15_counter_example :
+  let re := ref_eval [] (fun _ => None) 10 (fun _ _ => None) in
+  let '(_, e1, _) := re (ACounter (Sb "k"%string) true OpUnk 7) e_loop in
+  let '(_, e2, _) := re (ACounter (Sb "k"%string) false OpInc 2) e1 in
+  let '(_, e3, _) := re (ACounter (Sb "n"%string) false OpInc 1) e2 in
+  let '(_, e4, _) := re (ACounter (Sb "n"%string) false OpDec 3) e3 in
+  env_find (Sb "k"%string) (ev e4) = Some (mkEntry (VInt 9) true) /\ env_find (Sb "n"%string) (ev e4) = Some (mkEntry (VInt 3) true).
+Proof. exact counter_example. Qed.
